@@ -105,6 +105,16 @@ PROPS["C05"] = {
     "assumptions": ["pair identity is the identity of the two record objects handed to the step"],
 }
 
+PROPS["C11"] = {
+    "level": "other",
+    "text": "Each predicate's test is proved equal to the criterion in the statement (boundary values included, inputs symbolic); the "
+            "filtering steps are proved to consume exactly the reads for which the criterion holds, count them once and redirect them "
+            "iff a file was given (C04 step contracts).  Bounded: the order of the filter steps built by the command line is exercised "
+            "on a grid, predicting each read's destination from the statement.",
+    "note": "Trusted: floats as reals; expected_errors by its (proved, C14) contract; str.partition semantics.",
+    "assumptions": ["the step order produced by cli.make_pipeline_from_args is covered by the bounded stand-in only"],
+}
+
 _PENDING = "check not built yet in this revision (see DESIGN.md section 7 for the build order)"
 NOT_APPLICABLE = {
     "C12": "quantifies over fault sequences, crash points and schedules and contains a liveness clause; malformed-input detection "
